@@ -597,6 +597,7 @@ pub fn run_c05(ctx: &Ctx) {
         };
         with_graph_k!(fc.kidx, K => c05_case::<K>(c, &fc, &targets))
     });
+    ctx.set_case_timeout(900);
     if thorough && !ctx.is_miri() {
         ctx.run_group_t("big", ctx.n(1, 4), false, 4, |c| c05_big(c));
     }
